@@ -16,7 +16,9 @@ deriving DecidableEq, Repr
 
 /-- value expressions over: the ballot's weight, the surplus, the candidate's tally, its keep factor, the quota -/
 inductive WEx
-  | weight | surplus | vote | kf | quota
+  | weight | surplus | vote | kf | quota | one
+  | minus (a b : WEx)                      -- Python `a - b` on values
+  | iteLt (a b x y : WEx)                  -- Python `x if a < b else y`
   | times (a b : WEx)                      -- Python `a * b` on values
   | over (a b : WEx)                       -- Python `a / b` on values
   | mul (r : Rnd) (a b : WEx)              -- `V.mul(a, b, round=r)`
@@ -41,6 +43,9 @@ def WEx.eval {α : Type} (A : Arith α) (env : WEnv α) : WEx → α
   | .vote => env.vote
   | .kf => env.kf
   | .quota => env.quota
+  | .one => A.one
+  | .minus a b => A.sub (a.eval A env) (b.eval A env)
+  | .iteLt a b x y => if A.lt (a.eval A env) (b.eval A env) then x.eval A env else y.eval A env
   | .times a b => A.mulV (a.eval A env) (b.eval A env)
   | .over a b => A.divV (a.eval A env) (b.eval A env)
   | .mul r a b => A.mul r.toRound (a.eval A env) (b.eval A env)
@@ -55,6 +60,13 @@ def rewMulDivProg : WEx := .over (.times .weight .surplus) .vote
 def rewMuldivDownProg : WEx := .muldiv .down .weight .surplus .vote
 /-- `V.div(V.mul(c.kf, E.quota, round='up'), c.vote, round='up')` -/
 def kfUpdateProg : WEx := .div .up (.mul .up .kf .quota) .vote
+
+/-- meek.py `kw_warren(kf, weight)`: `(kf if kf < weight else weight, weight - keep)` with `keep` inlined -/
+def kwWarrenProg : WEx × WEx := (.iteLt .kf .weight .kf .weight, .minus .weight (.iteLt .kf .weight .kf .weight))
+/-- meek.py `kw_meekOpenSTV(kf, weight)`: `(V.mul(weight, kf, round='down'), V.mul(weight, V1-kf, round='down'))` -/
+def kwMeekProg : WEx × WEx := (.mul .down .weight .kf, .mul .down .weight (.minus .one .kf))
+/-- meek_prf.py B.2.a: `keep_weight = V.mul(b.weight, c.kf, round='up')` -/
+def kwPrfProg : WEx := .mul .up .weight .kf
 
 /-! ## each is the model's formula -/
 
@@ -108,5 +120,30 @@ theorem kfUpdate_uses_program (cap : Bool) (s : St α) :
           else acc.upd c.cid (fun x => { x with kf := some (kfCap A cap
             (kfUpdateProg.eval A { weight := A.zero, surplus := A.zero, vote := c.vote, kf := kf, quota := acc.quota })) })
         | none => acc.setCrash "TypeError") s := rfl
+
+/-- meek and warren share a ballot's weight by the translated functions (`kt = kw_warren if self.warren else kw_meekOpenSTV`) -/
+theorem keepWeight_is_program (warren : Bool) (kf w : α) :
+    keepWeight A warren kf w =
+      if warren then
+        (kwWarrenProg.1.eval A { weight := w, surplus := A.zero, vote := A.zero, kf := kf, quota := A.zero },
+         kwWarrenProg.2.eval A { weight := w, surplus := A.zero, vote := A.zero, kf := kf, quota := A.zero })
+      else
+        (kwMeekProg.1.eval A { weight := w, surplus := A.zero, vote := A.zero, kf := kf, quota := A.zero },
+         kwMeekProg.2.eval A { weight := w, surplus := A.zero, vote := A.zero, kf := kf, quota := A.zero }) := by
+  unfold keepWeight
+  split <;> rfl
+
+/-- meek-prf keeps `V.mul(weight, kf, round='up')` of the weight and passes on the rest -/
+theorem prfRankStep_uses_program (mult : α) (acc : St α × α × α × Bool) (cid : Nat) :
+    prfRankStep A mult acc cid =
+      if acc.2.2.2 then acc else
+      match kfOf acc.1 cid with
+      | some kf =>
+        if A.isZero kf then acc else
+        (acc.1.addVote A cid (A.mulV (kwPrfProg.eval A { weight := acc.2.1, surplus := A.zero, vote := A.zero, kf := kf, quota := A.zero }) mult),
+         A.sub acc.2.1 (kwPrfProg.eval A { weight := acc.2.1, surplus := A.zero, vote := A.zero, kf := kf, quota := A.zero }),
+         A.sub acc.2.2.1 (A.mulV (kwPrfProg.eval A { weight := acc.2.1, surplus := A.zero, vote := A.zero, kf := kf, quota := A.zero }) mult),
+         A.le (A.sub acc.2.1 (kwPrfProg.eval A { weight := acc.2.1, surplus := A.zero, vote := A.zero, kf := kf, quota := A.zero })) A.zero)
+      | none => acc := rfl
 
 end Droop.C06
